@@ -643,6 +643,7 @@ static verif::Result exec(const Script& sc, const verif::Config& cfg0)
         }
     }
     verif::begin(cfg);
+    verif::g_post_unlock_sched = 0;  // the schedule hints of the directed scripts count scheduling decisions
     verif::g_casfail_left = cfg.casfail_budget;
     arena_reset();
     g_live_elems.clear();
